@@ -72,6 +72,7 @@ Node(f, a) == [f |-> f, a |-> a]
 Apply(f, a) ==
   CASE f = "pred" -> Truthy(a[1])
     [] f = "key"  -> a[1].k
+    [] f = "key2" -> a[1].k \div 2        \* ties items (2 and 3) that differ in their own order
     [] OTHER      -> Node(f, a)
 
 To(pc) == [pc |-> pc]
@@ -411,7 +412,7 @@ MinMax(s, r, isMax) ==
               ELSE [s |-> To("end"), eff |-> RaiseX("ValueError")]
          ELSE IF cfg.par.key
               THEN [s |-> [pc |-> "keyed", has |-> s.has, best |-> s.best, bk |-> s.bk, x |-> r.v],
-                    eff |-> Call("key", <<r.v>>)]
+                    eff |-> Call(cfg.par.kf, <<r.v>>)]
               ELSE Consider(r.v, r.v.k)
     [] s.pc = "keyed" -> Consider(s.x, r.v)
 
@@ -617,8 +618,9 @@ ConfigsOf(t) ==
     [] t \in {"min", "max"} ->
          \* dflt: "no" | "fresh" (an object of its own) | "first" (the very object that is also
          \* the first item, if there is one): only for empty input is the default the result
-         UNION {{[tool |-> t, par |-> [key |-> b, dflt |-> v], data |-> d] :
+         UNION {{[tool |-> t, par |-> [key |-> b, kf |-> "key", dflt |-> v], data |-> d] :
                    v \in {"no", "fresh", "first"}, d \in DataSets(1, IF b THEN K12 ELSE K129)} : b \in BOOLEAN}
+         \cup {[tool |-> t, par |-> [key |-> TRUE, kf |-> "key2", dflt |-> "no"], data |-> d] : d \in DataSets(1, K123)}
     [] t \in {"list", "tuple"} ->
          {[tool |-> t, par |-> NoPar, data |-> d] : d \in DataSets(1, K1)}
     [] t = "set" ->
@@ -825,10 +827,11 @@ DeclSorted ==
         IF rev THEN out[j].k > out[j + 1].k \/ (out[j].k = out[j + 1].k /\ out[j].p < out[j + 1].p)
         ELSE out[j].k < out[j + 1].k \/ (out[j].k = out[j + 1].k /\ out[j].p < out[j + 1].p)
 DeclMinMax ==
-  (cfg.tool \in {"min", "max"} /\ Exhausted /\ Len(cfg.data[1]) > 0) =>
-     LET out == log[Len(log)].v  d == cfg.data[1] IN
-     /\ \A p \in 1..Len(d) : IF cfg.tool = "max" THEN d[p] <= out.k ELSE d[p] >= out.k
-     /\ \A p \in 1..(out.p - 1) : d[p] # out.k          \* the first one
+  (cfg.tool \in {"min", "max"} /\ Exhausted /\ Len(cfg.data[1]) > 0 /\ log[Len(log)].ev = "return") =>
+     LET out == log[Len(log)].v  d == cfg.data[1]
+         KV(k) == IF cfg.par.key /\ cfg.par.kf = "key2" THEN k \div 2 ELSE k IN
+     /\ \A p \in 1..Len(d) : IF cfg.tool = "max" THEN KV(d[p]) <= KV(out.k) ELSE KV(d[p]) >= KV(out.k)
+     /\ \A p \in 1..(out.p - 1) : KV(d[p]) # KV(out.k)          \* the first one
 DeclPairwise ==
   (cfg.tool = "pairwise" /\ Exhausted) =>
      /\ Len(Yields) = (IF Len(cfg.data[1]) = 0 THEN 0 ELSE Len(cfg.data[1]) - 1)
